@@ -5,7 +5,9 @@ from .. import combprop
 PROP = 'C07'
 RULE = ('case = (block, configuration, input vector); exhaustive stratum: every configuration the constructor '
         'accepts with all widths <= W and every input vector (distinct by construction); Hypothesis stratum: '
-        'widths up to 128 with boundary-biased operands, distinct by canonical JSON hash. Non-trivial iff the '
+        'widths up to 128 with boundary-biased operands, distinct by canonical JSON hash; stratum every_width_edge_operands: '
+        'every block at operand widths 1..17 and a spread up to 70 (every width 1..140 in the thorough tier) with equal, +1 and doubled result widths and edge operands '
+        '(0, 1, all ones, top bit, decimal boundaries). Non-trivial iff the '
         'unreduced mathematical result differs from its reduction modulo 2^(output width) (overflow, borrow, '
         'negative value) or an operand is at an extreme (all ones or only the top bit set).')
 ASSUMPTIONS = [
@@ -27,6 +29,8 @@ def strata(tier):
     return [
         {'name': 'exhaustive_small_widths', 'kind': 'enum', 'exhaustive': True,
          'tasks': combprop.enum_tasks(E, W, bits), 'run_task': _run_task},
+        {'name': 'every_width_edge_operands', 'kind': 'enum', 'exhaustive': False,
+         'tasks': combprop.width_tasks(E, combprop.QUICK_WIDTHS if tier == 'quick' else range(1, 141)), 'run_task': combprop.make_width_task(E)},
         {'name': 'hypothesis_wide', 'kind': 'hyp', 'examples': n,
          'strategy': lambda: combprop.case_strategy(E), 'run_case': run_case},
     ]
